@@ -87,12 +87,34 @@ def gateFlags : List GateFlag := [⟨"interactive", "i", ""⟩, ⟨"useSyscall",
 
 def newOptions : List (String × String) := [("GoPath", "build.Default.GOPATH"), ("BuildTags", "strings.Split(tags, \",\")"), ("Env", "os.Environ()"), ("Unrestricted", "useUnrestricted")]
 
+/-- interp/interp.go `type Options` -/
+def optionFields : List (String × String) :=
+  [("GoPath", "string"), ("BuildTags", "[]string"), ("Stdin", "io.Reader"), ("Stdout", "io.Writer"), ("Stderr", "io.Writer"),
+   ("Args", "[]string"), ("Env", "[]string"), ("SourcecodeFilesystem", "fs.FS"), ("Unrestricted", "bool")]
+
+/-- interp/interp.go `New`: every statement that reads a field of Options (see `OptFlow`).
+    Streams and Args: the host's value is used exactly when the field is nil (an empty non-nil Args is kept);
+    Env: no default at all — nil and empty both leave the initial empty map, and the loop is skipped in unrestricted mode;
+    SourcecodeFilesystem: used when non-nil, else the real file system; GoPath: always (never the host's GOPATH);
+    BuildTags: used when non-empty, else those of build.Default. -/
+def optFlows : List OptFlow :=
+  [⟨"Stdin", "stdin", "i.opt.stdin", "default-if", "_ == nil", "os.Stdin", []⟩,
+   ⟨"Stdout", "stdout", "i.opt.stdout", "default-if", "_ == nil", "os.Stdout", []⟩,
+   ⟨"Stderr", "stderr", "i.opt.stderr", "default-if", "_ == nil", "os.Stderr", []⟩,
+   ⟨"Args", "args", "i.opt.args", "default-if", "_ == nil", "os.Args", []⟩,
+   ⟨"Unrestricted", "unrestricted", "i.opt.unrestricted", "flag", "_", "zero", []⟩,
+   ⟨"Env", "env", "i.opt.env", "range", "", "map[string]string{}", ["!(options.Unrestricted)"]⟩,
+   ⟨"SourcecodeFilesystem", "filesystem", "i.opt.filesystem", "set-if", "_ != nil", "&realFS{}", []⟩,
+   ⟨"GoPath", "GOPATH", "i.opt.context.GOPATH", "always", "", "", []⟩,
+   ⟨"BuildTags", "BuildTags", "i.opt.context.BuildTags", "set-if", "len(_) > 0", "build.Default.BuildTags", []⟩]
+
 def sourceHashes : List (String × String) :=
   [("use.fixStdlib", "89411da84378427f"),
    ("use.Interpreter.Use", "4e42634dd7e03d36"),
    ("interp.Interpreter.ImportUsed", "fdad9fdce34294a2"),
    ("interp.fixKey", "304d3ffc90827c96"),
    ("interp.New.env", "82c172bc294d7950"),
+   ("interp.New.options", "59b8e97d5d7065da"),
    ("gta.importSpec", "a8a1223cf5295e74"),
    ("restricted.osExit", "303ff636090f458b"),
    ("restricted.osFindProcess", "f0ae354e2d0b7566"),
